@@ -22,9 +22,9 @@ P = {
         "findings": {4: "C11-F4", 6: "C11-F6", 7: "C11-F7"},
     }, {
         "name": "keys", "pkg": "./internal/rules/mechanisms", "test": "TestVerifC11Keys",
-        "overlay": OVERLAY, "eval_module": "Run.Eval_C11", "check_term": "check2 true false",
+        "overlay": OVERLAY, "eval_module": "Run.Eval_C11", "check_term": "check2 true true",
         "n_quick": 300, "n_thorough": 3000, "shard": 56,
-        "findings": {4: "C11-F4", 8: "C11-F8", 9: "C11-F9"},
+        "findings": {4: "C11-F4"},
     }],
     "rule": "stream histories: histories of 2-6 executions of REAL caching mechanisms (oauth2_introspection and generic authenticators, "
             "remote authorizer, generic contextualizer) created by the real mechanism factory from a generated prototype (0-3 endpoint "
@@ -74,8 +74,8 @@ P = {
                   "and iteration orders on which no guard of an open finding fires, every outcome with the cache equals the outcome of "
                   "a fresh evaluation under the instance's own policy (cache transparency, also for the token caches, the key cache "
                   "with forged issuer claims and the finalizer across key-store reloads); an identical request after an allowed one "
-                  "is answered without a remote call. Every open finding (F4, F6, F7, F8, F9) has a guard and a proved witness; the "
-                  "repaired ones (F1, F2, F3, F5) are model switches with the pinned behaviour kept as refutation. The model is tied to "
+                  "is answered without a remote call. Every open finding (F4, F6, F7) has a guard and a proved witness; the "
+                  "repaired ones (F1, F2, F3, F5, F8, F9) are model switches with the pinned behaviour kept as refutation. The model is tied to "
                   "the code by running ~800+300 (quick) / 8000+3000 (thorough) generated histories per run through the real mechanisms "
                   "with a recording cache and comparing keys (via the SHA-256 table), hits, remote call counts and outcomes with and "
                   "without cache inside Coq.",
@@ -83,9 +83,9 @@ P = {
                   "rendering); SHA-256 as a parameter (observed digests; injectivity assumed only where stated); map order, "
                   "json.Marshal, JWK thumbprints, the RFC 7234 parser, the template fragment and the CEL fragment as listed. Open "
                   "findings observed on every run (corpus): C11-F4 (delimiter-less concatenation), F6 (forwarded header/cookie values, "
-                  "generic authenticator payload not in key), F7 (.Outputs in endpoint templates not in key), F8 (httpcache ignores "
-                  "Vary), F9 (httpcache answers POST from the cache whatever the body). Fixed and modelled as switches: F1 9b4883e, "
-                  "F2 deaddf0, F3 abe584c, F5 d9caf75.",
+                  "generic authenticator payload not in key), F7 (.Outputs in endpoint templates not in key). Fixed and modelled as "
+                  "switches: F1 9b4883e, F2 deaddf0, F3 abe584c, F5 d9caf75, F8 and F9 12fdf68 (httpcache: only GET/HEAD looked up and "
+                  "stored, no response with Vary stored).",
     "assumptions": [
         "time is not modelled: all look-ups of a history happen within the TTL (expiry is C10)",
         "the remote system is a deterministic function of the request it receives (what 'a fresh evaluation would yield' means)",
